@@ -189,9 +189,41 @@ _REQ_CODES = {"Diff1": "model event log (outcomes, identities, exports seen) dif
               "SpecFail5": "two requires of one file without re-evaluation returned different exports, or a re-evaluation without a failure in between",
               "Implthrown-value-not-identical": "the value caught by the requirer is not the thrown value", "Implrequire-crashed": "require crashed"}
 
+_REQ_TRUST = ["goja: evaluation of the rendered JavaScript (assignment, call, try/catch, throw, Map identity), CaptureCallStack source names",
+              "path/filepath Join/Clean/Dir/Base (modelled on a cleaned representation, validated by the run)"]
+
 PROPS["C01"] = dict(harness="reqmod", module="Cases.ReqCheck", env={"VERIF_PROFILE": "cache"}, shard=60, codes=_REQ_CODES,
-    level_text="placeholder", level_note="placeholder", rule="module graphs with cycles, throws, retries, spellings", trusted=[], assumptions=[])
+    level_text="C01_invariant_reachable: for every file tree, every module-program assignment (trees, DAGs, cycles, self-requires, throws anywhere), "
+               "every fuel and every sequence of top-level calls, the reached state satisfies the cache invariant (every cached module is cached under "
+               "its own resolved path; unique keys); C01_identity (one module per file under all spellings), C01_cached_not_reentered (no second "
+               "evaluation, cycles cut, exports as populated so far), C01_in_progress_stays, C01_throw_same_value, C01_failure_uncached",
+    level_note="Proof is about Model/Require.v, an executable big-step model of resolve/loadModule/loadNative with open recursion. One deviation from "
+               "the code is documented in the model: the alias write after a successful resolution keeps an entry that nested requires wrote for the same "
+               "path (the code overwrites; equal by determinism of the candidates, observed by the correspondence, not proved). Tie: differential "
+               "histories (identities via a JS Map, counters, loader log) + trace oracles independent of the model.",
+    rule="module graphs over /vr/app with 2-4 mutually requiring files (cycles of length 1..4), set/throw/caught and uncaught requires at random "
+         "positions, json/invalid-json/directory/node_modules targets, 7 spellings per file, 2-6 top-level calls from JavaScript and from Go with "
+         "retries after failures; non-trivial = at least 2 files; distinct by hash",
+    trusted=_REQ_TRUST, assumptions=["the file tree does not change while the runtime lives"])
 PROPS["C02"] = dict(harness="reqmod", module="Cases.ReqCheck", env={"VERIF_PROFILE": "resolve"}, shard=60, codes=_REQ_CODES,
-    level_text="placeholder", level_note="placeholder", rule="trees with competing candidates", trusted=[], assumptions=[])
+    level_text="C02_selects_node_file: for every tree, every absolute requiring directory and every request the code's candidate order (as written, "
+               "incl. the node_modules walk with its duplicate probes) selects the file or failure the Node.js manual's algorithm selects; "
+               "C02_bare_never_relative; C02_invalid; C02_io_error_reported",
+    level_note="Proof is about the candidate lists of Model/Require.v (shared with the stateful model used for C01) against Spec/NodeResolve.v, a "
+               "transcription of 'All together' from the Node manual restricted to what the property claims. Outside: main target missing, exports/"
+               "imports, global folders, requests ending in '/', a directory named node_modules directly inside node_modules. The link between "
+               "candidate lists and loader calls is validated by the SourceLoader call log of every case. Real-directory configuration with the "
+               "default resolver (symlinks) is not exercised.",
+    rule="trees with competing candidates for one name at 7 places (file, .js, .json, directory with package.json main valid/empty/invalid/"
+         "unreadable, index.js/.json, nested and ancestor node_modules), loader I/O errors, slash-names whose join collides with a child "
+         "directory; 2-6 requests from 5 locations; non-trivial = at least 2 files; distinct by hash",
+    trusted=_REQ_TRUST, assumptions=["pure path resolver (filepath.Join); linux"])
 PROPS["C15"] = dict(harness="reqmod", module="Cases.ReqCheck", env={"VERIF_PROFILE": "native"}, shard=60, codes=_REQ_CODES,
-    level_text="placeholder", level_note="placeholder", rule="registration sets x call orders", trusted=[], assumptions=[])
+    level_text="C15_registration_only: in every state reachable by any history of prefixed, unprefixed and file requests, every cached bare or node: "
+               "name holds the implementation the registrations alone prescribe; C15_first_lookup; C15_same_object (identical object, loader once); "
+               "C15_node_prefix_alias",
+    level_note="Proof is about load_native and the caches of Model/Require.v, for registration sets whose native names are unprefixed (property's domain). "
+               "Per-runtime instances: each runtime has its own state record by construction; sharing one Registry among runtimes is exercised by C17.",
+    rule="registration sets over registry/global/core with overlaps, files named like modules next to scripts with relative and absolute names, "
+         "3-9 requests mixing bare, node: and file spellings from JavaScript and Go; loader invocation counters and markers observed",
+    trusted=_REQ_TRUST, assumptions=["global registrations are process-wide and fixed for the run"])
